@@ -19,14 +19,15 @@ RULE = (
     "cut into >= 2 batches or contains a warm-up->normal transition; distinct = hash of (samples, order, cut)"
 )
 ASSUMPTIONS = [
-    "a sample's time_period is its absolute_time minus the task start (as AsyncExecutor records it), so 'elapsed' is well defined",
+    "a sample's time_period is its absolute_time minus the task start (as AsyncExecutor records it), so 'elapsed' is well defined; in the request-durations class "
+    "(time-ordered arrival) time_period also contains the duration of the request and the task start is the one implied by the earliest sample, as rally takes it",
     "for out-of-order arrival the reference is an interval [ops strictly earlier + own, ops fed so far not later]; exact when arrival is in time order",
     "float comparison with relative tolerance 1e-9",
 ]
 REQUIRED_CLAUSES = ["carry-conservation", "value-in-bounds", "exact-cumulative", "nonneg", "type-monotone", "unit", "normal-value-exists", "passthrough", "batching-invariance",
                     "runner-throughput-reaches-sample", "passthrough-end-to-end", "driver-keeps-calculator-across-batches"]
 REQUIRED_FEATURES = {"three-batches-in-one-bucket": 5, "out-of-order": 5, "warmup-to-normal": 5, "runner-supplied": 5, "host-skew": 3, "class-executor": 20, "runner-supplied-zero": 5,
-                     "failed-requests-in-calculated-task": 50, "runner-supplied-with-failed-requests": 50, "class-driver": 100, "driver-batch-of-several-messages": 50, "driver-tick-then-join-point": 50, "driver-two-steps": 50}
+                     "failed-requests-in-calculated-task": 50, "request-durations": 50, "runner-supplied-with-failed-requests": 50, "class-driver": 100, "driver-batch-of-several-messages": 50, "driver-tick-then-join-point": 50, "driver-two-steps": 50}
 BUDGET = {
     "quick": {"cases": 160000, "seconds": 40},
     "thorough": {"cases": 1200000, "seconds": 600},
@@ -91,6 +92,17 @@ def gen_case(rng):
         if mode == "inorder":
             samples.sort(key=lambda s: (s["abs"], s["id"]))
             chunks = [[s] for s in samples]
+            if rng.random() < 0.4:
+                # requests take time, as in a race: AsyncExecutor stamps absolute_time when the request is issued and time_period when it has
+                # ended, so absolute_time - time_period differs from sample to sample by the duration of the request (slow and fast clients mixed).
+                # Rally derives the start of the task from the earliest sample; in time-ordered arrival that sample is in the first batch whatever
+                # the cut, so the start - and with it every value - must not depend on where later batches begin.
+                scale = rng.choice([0.001, 0.05, 0.5, 3.0])
+                slow = {c for c in range(nclients) if rng.random() < 0.4}
+                for s in samples:
+                    s["dur"] = rng.random() * scale * (10 if s["client"] in slow else 1)
+                tasks[-1]["durations"] = True
+                feats.add("request-durations")
         else:
             # clients grouped into workers; each worker ships its samples (time ordered) in chunks; chunks interleave
             nworkers = rng.randint(1, min(4, nclients))
@@ -162,7 +174,7 @@ def build_objects(tasks, arrival):
         sobjs.append(
             driver.Sample(
                 s["client"], s["abs"], 1000.0 + s["t"], 1000.0, tobjs[s["task"]], metrics.SampleType(s["type"]), None,
-                0.01, 0.01, 0.011, s["thr"], s["ops"], s["unit"], s["abs"] - t["t0"], None,
+                0.01, 0.01, 0.011, s["thr"], s["ops"], s["unit"], s["abs"] - t["t0"] + s.get("dur", 0.0), None,
             )
         )
     return tobjs, sobjs
@@ -221,6 +233,7 @@ def check_case(ctx, tasks, arrival, cuts, report=True, emit=None):
     pass_got = [[] for _ in range(ntasks)]
     failed_at = [set() for _ in range(ntasks)]
     by_abs_value = [dict() for _ in range(ntasks)]
+    first_dur = [next((s.get("dur", 0.0) for s in arrival if s["task"] == ti), 0.0) if tasks[ti].get("durations") else 0.0 for ti in range(ntasks)]
     for bi, idxs in enumerate(batch_ix):
         cur = [[] for _ in range(ntasks)]
         for i in idxs:
@@ -231,7 +244,8 @@ def check_case(ctx, tasks, arrival, cuts, report=True, emit=None):
                 if tuples:
                     problems.append(("value-in-bounds", f"batch {bi}: values emitted for task{ti} although no sample of it was in the batch", tuples))
                 continue
-            t0 = tasks[ti]["t0"]
+            # the start of the task: the wall clock at which it began or, when requests have a duration, the start implied by its earliest sample
+            t0 = tasks[ti]["t0"] - first_dur[ti]
             if tasks[ti]["supplied"]:
                 for s in sorted(cur[ti], key=lambda s: s["abs"]):
                     if s.get("failed"):
